@@ -240,7 +240,15 @@ def parse_arguments_tables():
             if bv[:6] == ["let", "mut", "params", "=", "vec!", "["]:
                 # mask form: sequence of `if x.contains(spirv::K::BIT) { params.append(&mut vec![...]); }`
                 p = bv.index(";") + 1
-                while p < len(body) and body[p].v == "if":
+                else_of = {}       # entry index -> indices of the earlier entries of its `if .. else if ..` chain
+                chain = []
+                while p < len(body) and (body[p].v == "if" or (body[p].v == "else" and p + 1 < len(body) and body[p + 1].v == "if")):
+                    if body[p].v == "else":
+                        p += 1
+                        else_of[len(entries)] = list(chain)
+                    else:
+                        chain = []
+                    chain.append(len(entries))
                     o = p
                     while body[o].v != "{":
                         o += 1
@@ -279,6 +287,8 @@ def parse_arguments_tables():
                     entries.append((names, _operand_ctor_list(_strip_block(expr))))
                 form = "enum"
             out[name] = dict(kind=kind, form=form, entries=entries, line=t[i].line)
+            if form == "mask" and else_of:
+                out[name]["else_of"] = else_of
             i = k
         i += 1
     return out
@@ -459,7 +469,7 @@ def operand_param_tables():
     pa = parse_arguments_tables()
     return {
         "parse_operand": {k: {"operands": v["operands"], "args_fn": v["args_fn"], "panic": v["panic"]} for k, v in parse_operand_arms().items()},
-        "parse_arguments": {k: {"kind": v["kind"], "form": v["form"], "entries": v["entries"]} for k, v in pa.items()},
+        "parse_arguments": {k: dict({"kind": v["kind"], "form": v["form"], "entries": v["entries"]}, **({"else_of": v["else_of"]} if "else_of" in v else {})) for k, v in pa.items()},
         "additional_operands": additional_operands_table(),
         "required_capabilities": required_table("required_capabilities"),
         "required_extensions": required_table("required_extensions"),
